@@ -33,11 +33,25 @@ fn block_on<F: Future>(f: F) -> F::Output {
     loop { if let Poll::Ready(v) = f.as_mut().poll(&mut cx) { return v; } }
 }
 
+fn dyn_schema() -> async_graphql::dynamic::Schema {
+    use async_graphql::dynamic::*;
+    let f = |name: &'static str| Field::new(name, TypeRef::named_nn(TypeRef::INT), move |_| FieldFuture::new(async move { Ok(Some(async_graphql::Value::from(step(name).await))) }));
+    let sub = Object::new("Sub1").field(f("x")).field(f("y"));
+    let q = Object::new("Query").field(f("q1"));
+    let m = Object::new("Mutation").field(f("a")).field(f("b"))
+        .field(Field::new("c", TypeRef::named_nn("Sub1"), |_| FieldFuture::new(async { step("c").await; Ok(Some(FieldValue::owned_any(0u8))) })));
+    Schema::build("Query", Some("Mutation"), None).register(sub).register(q).register(m).finish().unwrap()
+}
 /// args {"query": "mutation { a b }", "serial": ["a","b"]}: the listed root fields must run strictly one after another, in that order
 pub fn serial(args: &Value) -> Outcome {
     LOG.lock().unwrap().clear();
-    let schema = Schema::new(Query, Mutation, EmptySubscription);
-    let _resp = block_on(schema.execute(args["query"].as_str().unwrap()));
+    let resp = if args["schema"] == "dynamic" { let s = dyn_schema(); block_on(s.execute(args["query"].as_str().unwrap())) }
+               else { let schema = Schema::new(Query, Mutation, EmptySubscription); block_on(schema.execute(args["query"].as_str().unwrap())) };
+    if let Some(exp) = args["data"].as_str() {
+        // the sub-selections of root fields sharing a response key are merged, on the SERIAL path too
+        let data = serde_json::to_string(&resp.data).unwrap();
+        return Outcome { holds: data == exp, observed: format!("data {}", data), expected: format!("data {}", exp) };
+    }
     let log = LOG.lock().unwrap().clone();
     let order: Vec<String> = args["serial"].as_array().unwrap().iter().map(|x| x.as_str().unwrap().to_string()).collect();
     // expected subsequence for the root fields: start f1, end f1, start f2, end f2, ...
@@ -62,6 +76,15 @@ pub fn inputs(_seed: u64, open: &[String]) -> impl Iterator<Item = Value> {
         json!({"query": "mutation { ... { a c { x y } b } }", "serial": ["a", "c", "b"]}),
         json!({"query": "mutation M { ...F ...G } fragment F on Mutation { a } fragment G on Mutation { b }", "serial": ["a", "b"]}),
         json!({"query": "mutation { b }", "serial": ["b"]}),
+        // dynamic schemas: the mutation root is serial as well
+        json!({"schema": "dynamic", "query": "mutation { a b }", "serial": ["a", "b"]}),
+        json!({"schema": "dynamic", "query": "mutation { b a }", "serial": ["b", "a"]}),
+        json!({"schema": "dynamic", "query": "mutation { a c { x y } b }", "serial": ["a", "c", "b"]}),
+        json!({"schema": "dynamic", "query": "mutation { ...F } fragment F on Mutation { b a }", "serial": ["b", "a"]}),
+        // merged keys on the serial path keep every sub-selection
+        json!({"query": "mutation { c { x } c { y } }", "data": "{\"c\":{\"x\":1,\"y\":1}}"}),
+        json!({"query": "mutation { k: c { x } ... on Mutation { k: c { y } } a }", "data": "{\"k\":{\"x\":1,\"y\":1},\"a\":1}"}),
+        json!({"schema": "dynamic", "query": "mutation { c { x } c { y } }", "data": "{\"c\":{\"x\":1,\"y\":1}}"}),
     ];
     if !open.iter().any(|x| x == "C04-merged-key-resolves-per-occurrence") {
         v.push(json!({"query": "mutation { a a }", "serial": ["a"]}));
